@@ -689,7 +689,18 @@ def run_sqlite(case):
 
       for size in case['chunks']:
         chunk, pos = pairs[pos:pos + size], pos + size
-        if case.get('as_iterator'):
+        if case.get('as_iterator') == 'scratch':
+          # a streaming producer that refills ONE examples dict for client
+          # after client: what it yields is valid only until the next item is
+          # asked for, as with any generator over a scratch buffer
+          def producer(items=chunk):
+            scratch = {}
+            for cid_, ex_ in items:
+              scratch.clear()
+              scratch.update(ex_)
+              yield cid_, scratch
+          builder.add_many(producer())
+        elif case.get('as_iterator'):
           builder.add_many(iter(chunk))
         else:
           builder.add_many(chunk)
@@ -1211,7 +1222,7 @@ def sqlite_cases(draw, tier):
   missing = draw(st.one_of(st.sampled_from(['78787878', '', '00']),
                            st.binary(max_size=5).map(bytes.hex)))
   return {'clients': clients, 'chunks': chunks, 'missing': missing,
-          'as_iterator': draw(st.booleans()), 'buffer': draw(st.integers(1, 4)),
+          'as_iterator': draw(st.sampled_from([False, True, 'scratch'])), 'buffer': draw(st.integers(1, 4)),
           'peek': draw(st.sampled_from([False, True, 'kept'])), 'stale_file': draw(st.integers(0, 3)) == 0}
 
 
